@@ -100,6 +100,16 @@ func runC17(t *testing.T, rng *rand.Rand, rec *sim.Rec, tier string, caseNo int)
 	time.Sleep(time.Duration(rng.Intn(3_000_000))*time.Second + time.Duration(rng.Intn(1000))*time.Millisecond)
 	kind := credKinds[caseNo%2]
 	secret := pick(rng, []string{"s3cret", "", "a much longer shared secret with spaces", "ключ", string([]byte{0, 1, 2, 255})})
+	if rng.Intn(3) == 0 {
+		// lengths around the hash's block size (HMAC treats longer keys differently), e.g. the 64
+		// characters of `openssl rand -hex 32`
+		b := make([]byte, pick(rng, []int{19, 20, 21, 63, 64, 65, 127, 128, 129, 1000}))
+		for i := range b {
+			b[i] = "0123456789abcdef"[rng.Intn(16)]
+		}
+		secret = string(b)
+		rec.FP("secret-length/%d", len(b))
+	}
 	user := pick(rng, []string{"alice", "", "bob:extra", "user with space", "1700000000", "50%off", "%s%d%v", "a%",
 		// longer than any fixed-size scratch buffer
 		"session-" + strings.Repeat("0123456789abcdef", 6) + "-000042", strings.Repeat("u", 63), strings.Repeat("v", 64), strings.Repeat("w", 65)})
